@@ -1,6 +1,6 @@
 (* C06 property theorems. Statements closed by `exact lemma`, followed by Print Assumptions. *)
 From Coq Require Import ZArith NArith List Bool String Lia Permutation.
-From OG Require Import C06.Model C06.ModelStream C06.Proofs C06.ProofsInt C06.ProofsDec C06.ProofsRender C06.ProofsStream C06.ProofsFloat C06.ProofsFloatAll C06.ModelWriter C06.ProofsWriter.
+From OG Require Import C06.Model C06.ModelStream C06.Proofs C06.ProofsInt C06.ProofsDec C06.ProofsRender C06.ProofsStream C06.ProofsFloat C06.ProofsFloatAll C06.ProofsDecParse C06.ModelWriter C06.ProofsWriter.
 Import ListNotations.
 Open Scope Z_scope.
 
@@ -339,6 +339,26 @@ Print Assumptions C06_dec2f_exact_nearest_binary64.
 Theorem C06_dec2f_shortcuts_sound : forall s, dec2f_exact s = dec2f_full s.
 Proof. exact dec2f_exact_full. Qed.
 Print Assumptions C06_dec2f_shortcuts_sound.
+
+(* dec_parse against the grammar of decimal literals  [sign] digits [. digits] [(e|E) [sign] digits]  (the integer digits may be
+   missing when there are fraction digits): it returns the sign, the value of the integer and fraction digits read as one number,
+   the number of fraction digits, the exponent's sign and value - so dec_ratio is the decimal value of the literal *)
+Theorem C06_dec_parse_int : forall sg I, all_digits I = true ->
+  dec_parse (sign_text sg ++ I) = mk (sign_neg sg) (dec_val I) 0 false 0.
+Proof. exact dec_parse_int. Qed.
+Theorem C06_dec_parse_point : forall sg I F, all_digits I = true -> all_digits F = true ->
+  dec_parse (sign_text sg ++ I ++ c_dot :: F) = mk (sign_neg sg) (dec_val (I ++ F)) (Z.of_nat (List.length F)) false 0.
+Proof. exact dec_parse_point. Qed.
+Theorem C06_dec_parse_point_exp : forall sg I F ec es X,
+  all_digits I = true -> all_digits F = true -> all_digits X = true -> (I <> [] \/ F <> []) -> is_e ec = true ->
+  dec_parse (sign_text sg ++ I ++ c_dot :: F ++ ec :: sign_text es ++ X) =
+  mk (sign_neg sg) (dec_val (I ++ F)) (Z.of_nat (List.length F)) (sign_neg es) (dec_val X).
+Proof. exact dec_parse_point_exp. Qed.
+Theorem C06_dec_parse_int_exp : forall sg I ec es X,
+  all_digits I = true -> all_digits X = true -> I <> [] -> is_e ec = true ->
+  dec_parse (sign_text sg ++ I ++ ec :: sign_text es ++ X) = mk (sign_neg sg) (dec_val I) 0 (sign_neg es) (dec_val X).
+Proof. exact dec_parse_int_exp. Qed.
+Print Assumptions C06_dec_parse_point_exp.
 
 Example C06_example_round_ratio :
   round_ratio false 1 10 = FFin false 7205759403792794 (-56) /\                 (* 0.1 = 0x1.999999999999ap-4 *)
